@@ -161,9 +161,28 @@ def _fresh_in(ctx, rep, specs, providers=()):
     n = 0
     for sp in providers:
         fresh.check_provider(ctx, rep, ctx.prog.func(sp))
+    pnames = {ctx.prog.func(sp).qualname for sp in providers}
+    done = set()
     for sp in specs:
         f = ctx.prog.func(sp)
-        for g in [f] + list(f.nested.values()):
+        units = [f] + list(f.nested.values())
+        # a helper that draws a name from a provider AND registers it (def add_fresh(G, hint): A = fresh(G, hint); G.V.add(A);
+        # return A) is part of the introduction sites of its callers
+        for g in list(units):
+            for c in ctx.prog.calls_in(g):
+                r = ctx.resolve_call(g, c)
+                if r is not None and r.kind == 'func' and r.target.qualname not in pnames and r.target.parent is None and r.target.module is f.module \
+                        and any((ctx.resolve_call(r.target, c2) is not None and ctx.resolve_call(r.target, c2).kind == 'func' and ctx.resolve_call(r.target, c2).target.qualname in pnames)
+                                for c2 in ctx.prog.calls_in(r.target)):
+                    if r.target not in units:
+                        units.append(r.target)
+                    # each call of the registering helper is an introduction site of its own (decided inside the helper)
+                    rep.holds('R-FRESH.site', g, c, 'the name is drawn and registered by the helper {} (its own site is decided separately)'.format(r.target.name), nontrivial=False)
+                    n += 1
+        for g in units:
+            if g.qualname in done:
+                continue
+            done.add(g.qualname)
             n += fresh.check_introductions(ctx, rep, g)
         fresh.check_request_order(ctx, rep, f)
     return n
@@ -177,6 +196,15 @@ def _eps_in(ctx, rep, specs):
     return n
 
 
+def _simplifier(ctx, rep):
+    """the simplifier is decided by finite-shape evaluation (all trees of depth <= 3); only when its body leaves the
+    evaluator's fragment, by the symbolic case analysis of its rewrite paths"""
+    f = ctx.prog.func('regexp_algorithms.regexp_simplify')
+    if ka_rules.check_simplify_shapes(ctx, rep, f) is None:
+        if ka_rules.check_simplify(ctx, rep, f) < 40:
+            raise AnalysisError('fewer than 40 class cases evaluated for regexp_simplify')
+
+
 def check_C05(ctx, rep):
     rep.clauses_decided += ['every rewrite path of regexp_simplify is a Kleene-algebra identity, never grows the expression and is applied after simplifying every child (M3, decided exactly)',
                             'matcher: concatenation splits k in [0,|w|], star takes a non-empty prefix and recurses on the same node, base cases, sum (M3m)',
@@ -185,8 +213,7 @@ def check_C05(ctx, rep):
                             'no cross-call memo feeds the matcher or the simplifier (R-STATE c); operands untouched (R-EFFECT)']
     rep.not_decided += ['that the recursive matcher equals the denotation beyond those facts']
     P = ctx.prog.func
-    if ka_rules.check_simplify(ctx, rep, P('regexp_algorithms.regexp_simplify')) < 40:
-        raise AnalysisError('fewer than 40 class cases evaluated for regexp_simplify')
+    _simplifier(ctx, rep)
     ka_rules.check_simplify_spec(ctx, rep, P('regexp_algorithms.regexp_simplify'))
     ka_rules.check_matcher(ctx, rep, P('regexp_algorithms.regexp_accepts_word'))
     if visitor.check_visitors(ctx, rep) < 14:
@@ -223,8 +250,7 @@ def check_C06(ctx, rep):
     dispatch.check_generator_mapping(ctx, rep, ctx.prog.func('regexp_algorithms.RegexpToNFAGenerator.generate'))
     ka_rules.check_rip_step(ctx, rep, ctx.prog.func('regexp_algorithms.gnfa_minimize'))
     ka_rules.check_gnfa_edges(ctx, rep, ctx.prog.func('regexp_algorithms.dfa_to_gnfa'))
-    if ka_rules.check_simplify(ctx, rep, ctx.prog.func('regexp_algorithms.regexp_simplify')) < 40:
-        raise AnalysisError('fewer than 12 rewrite paths extracted from regexp_simplify')
+    _simplifier(ctx, rep)
     state.check_hidden_state(ctx, rep, modules=['regexp_algorithms', 'nfa_algorithms'])
     for f, st in dispatch.regexp_recursions(ctx):
         if f.name in ('generate', 'regexp_simplify'):
